@@ -1,6 +1,7 @@
 package rules
 
 import (
+	"fmt"
 	"go/token"
 	"go/types"
 
@@ -555,6 +556,9 @@ func c18(c *core.Ctx) {
 	c.Run("exist-from-index-only", func() { c18ExistFromIndexOnly(c) })
 	c.Run("guard-expiry-after-pool-fixup", func() { c18GuardExpiryAfterPoolFixup(c) })
 
+	c.Clause("C18.8", "a slot keeps its number while the index names it: every store to TxPool.txs either appends to the current list, installs a fresh list exactly as long as the current one (growth), or sits in a function that installs a fresh index map as well (constructor, reset when the pool runs empty); no store re-slices or shortens the list, because released (nil) slots are still named by the index entries of a box and its remaining sub transactions")
+	c.Run("slots-stable", func() { c18SlotsStable(c) })
+
 	c.NotDecidedf("set semantics under interleavings (linearizability of AddTx/GetTxs/DelTxs), loss of sibling sub-txs when one sub-tx is deleted (documented in the code), capacity arithmetic")
 }
 
@@ -722,4 +726,75 @@ func c18InsertAtomic(c *core.Ctx) {
 		c.Check("index-insert@"+name+":expands-box", "sibling-agreement", len(core.CallsIn(fn, sub)) >= 1, fn.Pos(), "%s indexes a transaction; it must index the sub transactions of a box too (getSubTxs), as delTx and isTxExist look them up", name)
 	}
 	c.Floor("index-inserts", nIns, 2)
+}
+
+// c18SlotsStable: C18.8. The slot list is append-only between two resets of the index.
+func c18SlotsStable(c *core.Ctx) {
+	const tp = "chain/txpool"
+	txsF := c.FieldVar(tp+".TxPool", "txs")
+	idxF := c.FieldVar(tp+".TxPool", "hashIndexMap")
+	loadOfTxs := func(v ssa.Value) bool {
+		ld, ok := v.(*ssa.UnOp)
+		return ok && ld.Op == token.MUL && core.FieldOf(ld.X) == txsF
+	}
+	isLenOfTxs := func(v ssa.Value) bool {
+		if cv, ok := v.(*ssa.Convert); ok {
+			v = cv.X
+		}
+		call, ok := v.(*ssa.Call)
+		if !ok {
+			return false
+		}
+		b, ok := call.Call.Value.(*ssa.Builtin)
+		return ok && b.Name() == "len" && len(call.Call.Args) == 1 && loadOfTxs(call.Call.Args[0])
+	}
+	n := 0
+	for _, fn := range c.SrcFuncs {
+		if core.RelPkg(fn) != tp || isTestHelper(c, fn) {
+			continue
+		}
+		stores := storesToO8(fn, txsF)
+		if len(stores) == 0 {
+			continue
+		}
+		resetsIndex := false
+		for _, st := range storesToO8(fn, idxF) {
+			if _, ok := st.Val.(*ssa.MakeMap); ok {
+				resetsIndex = true
+			}
+		}
+		for i, st := range stores {
+			n++
+			ok, why := false, ""
+			switch v := st.Val.(type) {
+			case *ssa.Call:
+				if b, isB := v.Call.Value.(*ssa.Builtin); isB && b.Name() == "append" && len(v.Call.Args) >= 1 && loadOfTxs(v.Call.Args[0]) {
+					ok = true
+				} else {
+					why = "the stored list is the result of a call that is not append(pool.txs, …)"
+				}
+			case *ssa.MakeSlice:
+				switch {
+				case resetsIndex:
+					ok = true
+				case isLenOfTxs(v.Len):
+					ok = true
+				default:
+					why = "a fresh list whose length is not len(pool.txs) is installed and the index map is kept"
+				}
+			case *ssa.Slice:
+				why = "the list is re-sliced in place while the index map is kept"
+				if resetsIndex {
+					ok, why = true, ""
+				}
+			default:
+				why = fmt.Sprintf("the stored value has a form the rule does not know (%T)", st.Val)
+				if resetsIndex {
+					ok, why = true, ""
+				}
+			}
+			c.Check(fmt.Sprintf("slots-stable@%s#%d", shortFn(fn), i), "typestate", ok, st.Pos(), "%s stores TxPool.txs; slot numbers held in hashIndexMap stay valid only if the store appends, grows to the same length, or resets the index too: %s", shortFn(fn), orOK(why))
+		}
+	}
+	c.Floor("stores-of-txs", n, 4)
 }
